@@ -1,0 +1,6 @@
+//go:build !verif
+
+package p9
+
+// verifPoint is a no-op outside verification builds (see verif_hooks.go).
+func verifPoint(*Server, string) {}
